@@ -83,6 +83,17 @@ let run (cmd : string) (a : v) : v =
        | "greedy_ok_b", [a] -> vbool (greedy_ok_b work groups (colo <> 0) (asg_of a))
        | "greedy_prop_b", [a] -> vbool (greedy_prop_b work groups (colo <> 0) (asg_of a))
        | _ -> failwith "greedy args")
+  | "kaisa_view", L [I w; I k; L work; a] ->
+      let work = List.map (fun l -> List.map (function L [I f; I c] -> (nat_of_int f, z_of_int c) | _ -> failwith "factor") (getl l)) work in
+      let asg = List.map (function L [I l; L fl] ->
+          (nat_of_int l, List.map (function L [I f; I w] -> (nat_of_int f, nat_of_int w) | _ -> failwith "asg") fl)
+          | _ -> failwith "asg") (getl a) in
+      let ((((cr, fl), gw), rv), per) = kaisa_view (nat_of_int w) (nat_of_int k) work asg in
+      let vopt f = function None -> S "none" | Some x -> f x in
+      L [ vlist (vlist vnat) (fst cr); vlist (vlist vnat) (snd cr);
+          vbool (fst fl); vbool (snd fl);
+          vlist (vopt (vlist vnat)) gw; vlist (vlist vnat) rv;
+          vlist (vlist (fun (b, s) -> L [vbool b; vopt vnat s])) per ]
   | _ -> failwith ("unknown command or bad argument: " ^ cmd)
 
 let () =
